@@ -10,8 +10,8 @@ total functions here.  Proved for all inputs / options:
 """
 from contracts.canonicalize_url import lib
 
-# lowercase_url (a contract-less, loop-free helper of the module: inlined): escaped ASCII letters are decoded between two lower-casings
-LU = "uf('unquote', 'Str', old(url).lower(), EVERYTHING_BUT_LETTERS).lower()"
+# lowercase_url (a contract-less, loop-free helper of the module: inlined): control characters are dropped, then escaped ASCII letters are decoded between two lower-casings
+LU = "uf('unquote', 'Str', uf('re_sub', 'Str', CONTROL_CHARS_RE, '', old(url)).lower(), EVERYTHING_BUT_LETTERS).lower()"
 N = "uf('normalize_url', 'Obj', %s, False, lang_query_item_filter, platform_aware)" % LU
 P1, P2, P3, P4 = ("unpack(%s, %d, 'Str')" % (N, i) for i in (1, 2, 3, 4))
 LQ = "%s.lower()" % P3
